@@ -132,8 +132,25 @@ impl MoveGen {
         }
     }
 
+    /// The destination whose promotions are being handed out right now, if any
+    fn promotion_in_progress(&self) -> Option<BitBoard> {
+        if self.promotion_index != 0 && self.index < self.moves.len() {
+            let left = self.moves[self.index].bitboard & self.iterator_mask;
+            if left != EMPTY {
+                return Some(BitBoard::from_square(left.to_square()));
+            }
+        }
+        None
+    }
+
     /// Never, ever, iterate any moves that land on the following squares
     pub fn remove_mask(&mut self, mask: BitBoard) {
+        // removing the square of a half-finished promotion group ends that group
+        if let Some(dest) = self.promotion_in_progress() {
+            if dest & mask != EMPTY {
+                self.promotion_index = 0;
+            }
+        }
         for x in 0..self.moves.len() {
             self.moves[x].bitboard &= !mask;
         }
@@ -144,6 +161,14 @@ impl MoveGen {
     /// Never, ever, iterate this move
     pub fn remove_move(&mut self, chess_move: ChessMove) -> bool {
         let mut found = false;
+        // removing the move of a half-finished promotion group ends that group
+        if let Some(dest) = self.promotion_in_progress() {
+            if self.moves[self.index].square == chess_move.get_source()
+                && dest == BitBoard::from_square(chess_move.get_dest())
+            {
+                self.promotion_index = 0;
+            }
+        }
         // a pawn can own two entries: its ordinary moves and an en-passant capture
         for x in 0..self.moves.len() {
             if self.moves[x].square == chess_move.get_source() {
